@@ -59,6 +59,8 @@ nix::FileMode modeOf(const std::string &m) {
     if (m == "ow") return nix::FileMode::Overwrite;
     throw ProtoError("bad mode " + m);
 }
+// a file opened with Force may have no id at all
+std::string idTok(const std::string &id) { return id.empty() ? std::string("~") : (id.find(' ') == std::string::npos ? id : hexStr(id)); }
 std::string modeTok(nix::FileMode m) { return m == nix::FileMode::ReadOnly ? "ro" : m == nix::FileMode::ReadWrite ? "rw" : "ow"; }
 
 // raw attribute writers -------------------------------------------------------------------------------------------
@@ -174,8 +176,14 @@ DRV_OP(fm_open) {
         nix::Compression c = a[2] == "deflate" ? nix::Compression::DeflateNormal : a[2] == "none" ? nix::Compression::None : nix::Compression::Auto;
         nix::OpenFlags fl = a[3] == "1" ? nix::OpenFlags::Force : nix::OpenFlags::None;
         st.file = nix::File::open(path(), modeOf(a[1]), "hdf5", c, fl);
-        return st.file.id() + " " + modeTok(st.file.fileMode()) + " " + std::to_string(st.file.blockCount()) + " " + std::to_string(st.file.sectionCount());
+        return idTok(st.file.id()) + " " + modeTok(st.file.fileMode()) + " " + std::to_string(st.file.blockCount()) + " " + std::to_string(st.file.sectionCount());
     });
+}
+
+// fm_close: forget every entity handle, then close the file (the end of a session)
+DRV_OP(fm_close) {
+    forget();
+    return "ok";
 }
 
 // fm_snap => ok <size> <fnv of bytes> <file id> <created_at> <format> <version> <blockCount> <sectionCount> <records> <fnv of the entity dump>
@@ -195,7 +203,7 @@ DRV_OP(fm_snap) {
         for (size_t pos = 0; (pos = tree.find("E ", pos)) != std::string::npos; pos += 2) if (pos == 0 || tree.compare(pos - 3, 3, " | ") == 0) nrec++;
         nix::File &f = st.file;
         std::vector<std::string> vl; for (int v : f.version()) vl.push_back(std::to_string(v));
-        return s + " " + f.id() + " " + std::to_string((long long) f.createdAt()) + " " + hexStr(f.format()) + " " + listTok(vl) + " " +
+        return s + " " + idTok(f.id()) + " " + std::to_string((long long) f.createdAt()) + " " + hexStr(f.format()) + " " + listTok(vl) + " " +
                std::to_string(f.blockCount()) + " " + std::to_string(f.sectionCount()) + " " + std::to_string(nrec) + " " + hex64(fnv1(tree.data(), tree.size()));
     });
 }
